@@ -569,10 +569,11 @@ def run(ck):
         "Cs104/MsgQueue.v: hand transcription of MessageQueue_enqueueASDU / getNextWaitingASDU / markAsduAsConfirmed / removeFirstEntry / setWaitingForTransmissionWhenNotConfirmed with byte offsets; validated operation by operation against the real functions each run",
         "arena content is modelled as offset -> entry (a header read where no entry starts is the outcome Fault); struct padding is not modelled",
         "trace level: Cs104/Server.v with an abstract event log (scripts below capacity) vs the real server",
+        "Cs104/SchedMq.v ev_send_r / release_r / send_waiting_rr: transcription of sendNextLowPriorityASDU / the release loop of checkSequenceNumber / sendWaitingASDUs with the literal rings; the entry address the C k-buffer keeps is kept in a side table keyed by entry id; validated against the real static functions (white-box `sch` scripts) each run",
     ]
     ck.rule = ("unit: random operation sequences (enqueue sizes 8..249 equal / two sizes / mixed; next; confirm oldest outstanding; reset-to-waiting; queries; release) for N in {1,2,3,4,8}; "
                "trace: enqueue / activate / acknowledge prefixes / connection loss (peer close, write error, STOPDT+close) / reconnect, k in {1,2,3,12}; non-trivial = distinct script")
-    ck.explanation = "PARTIAL: (1) event-log theorems for every history (acknowledged never resent, loss re-arms, ids unique); (2) the byte-offset MessageQueue ring (literal transcription, run against the C functions on every run) is proved for every ring size and every history: no stale header read, entries inside the arena, enqueue displaces only a prefix of the oldest entries, getNextWaiting = oldest waiting entry, confirmation safe for every (pointer, id) pair ever handed out. (3) the ring operations are proved to BE the list operations of the server model under the abstraction that forgets offsets (C06_refine_*), displacement of the D oldest entries being the only difference. (4) the capacity clause is proved on the ring (Cs104/MqCapacity.v, C06_capacity_equal_sizes): for every ring size n, ASDU size z and history with equal-size ASDUs an enqueue displaces an entry only if at least n entries remain, and then exactly one; the oracle additionally evaluates it on the queue functions and on the real server in both group modes. NOT proved: the composition of the server model (abstract log, trace theorems assume D = 0) with the ring into one trace theorem."
+    ck.explanation = "PARTIAL: (1) event-log theorems for every history (acknowledged never resent, loss re-arms, ids unique); (2) the byte-offset MessageQueue ring (literal transcription, run against the C functions on every run) is proved for every ring size and every history: no stale header read, entries inside the arena, enqueue displaces only a prefix of the oldest entries, getNextWaiting = oldest waiting entry, confirmation safe for every (pointer, id) pair ever handed out. (3) the ring operations are proved to BE the list operations of the server model under the abstraction that forgets offsets (C06_refine_*), displacement of the D oldest entries being the only difference. (4) the capacity clause is proved on the ring (Cs104/MqCapacity.v, C06_capacity_equal_sizes): for every ring size n, ASDU size z and history with equal-size ASDUs an enqueue displaces an entry only if at least n entries remain, and then exactly one; the oracle additionally evaluates it on the queue functions and on the real server in both group modes. (5) COMPOSITION (Cs104/SchedMq.v, C06_sched_mq_*): sendNextLowPriorityASDU, the release loop of checkSequenceNumber, enqueue and the re-arming at the end of a connection, transcribed with the literal ring and the remembered (id, offset) pairs, are the list versions of the server model for every ring state that represents the list (no fault, same frames, same connection; an enqueue first displaces the D oldest entries); sendWaitingASDUs on both rings = send_waiting of the model; the ring-backed functions are run against the real static functions on every run. NOT stated: one trace theorem over whole server histories with the rings in place."
     ck.coq("C06")
     h = harness()
     try:
@@ -581,6 +582,8 @@ def run(ck):
         m = None
         ck.fail("correspondence", "model-build", "extracted model does not build: " + str(e)[:300], {"theorem": "extraction"})
     run_unit(ck, h, m, rng, quick)
+    from props import c13 as _c13
+    _c13.run_sched(ck, h, m, core.Rng(ck.seed + 77), quick, sig="sched-mq")
     run_trace(ck, rng, quick)
     run_capacity(ck, rng, quick)
     run_threaded_resume(ck, rng, quick)
